@@ -135,3 +135,43 @@ def multisphere_cross_sections(c):
     c.ensures("scattering-nonnegative", c.ge(4 * c.pi / k ** 2 * spec, 0))      # (with the previous clause: C_sca >= 0)
     c.ensures("four-results", c.and_(c.eq(allfour[0], csca), c.eq(allfour[2], cext), c.eq(allfour[1], cext - csca)))
     c.ensures("extinction-equals-scattering-plus-absorption", c.eq(allfour[2], allfour[0] + allfour[1]))
+
+
+@contract("C03", "mie_cross_sections_wiring", [TH + "mie:Mie.raw_cross_sections"])
+def mie_wiring(c):
+    """for a series of ANY length: with S_sca, S_ext and the asymmetry sum whatever the series functions return,
+    Mie.raw_cross_sections = [2 pi S_sca/k^2, C_ext - C_sca, 2 pi S_ext/k^2, 4 pi/(k^2 C_sca) * asym]; hence C_ext = C_sca + C_abs"""
+    from holopy.scattering.theory import mie as miemod
+    k = c.real("k", pos=True, sample=(5, 20))
+    n_med = c.real("medium_index", pos=True, sample=(1, 1.6))
+    n, r = c.real("n", pos=True, sample=(1.2, 2)), c.real("r", pos=True, sample=(0.1, 1))
+    S_sca, S_ext, S_back, asym = c.real("S_sca", sample=(0.1, 5)), c.real("S_ext", sample=(0.1, 5)), c.real("S_back", sample=(0, 5)), c.real("asym", sample=(-1, 1))
+    c.requires(c.not_(c.eq(S_sca, 0)) if c.symbolic else abs(S_sca) > 1e-9)
+    if c.symbolic:
+        c.requires(k * r <= 1000)
+    with mie_kernels() as rec:
+        seen = []
+
+        class Sums:
+            nstop = staticmethod(miemod.miescatlib.nstop)
+            scatcoeffs = staticmethod(miemod.miescatlib.scatcoeffs)
+
+            @staticmethod
+            def cross_sections(al, bl):
+                seen.append(('cs', al, bl))
+                return np.array([S_sca, S_ext, S_back], dtype=object if c.symbolic else float)
+
+            @staticmethod
+            def asymmetry_parameter(al, bl):
+                seen.append(('g', al, bl))
+                return asym
+        miemod.miescatlib = Sums
+        th = miemod.Mie()
+        out = c.call(th.raw_cross_sections, Sphere(n=n, r=r, center=(0, 0, 0)), k, n_med, to_vector((1, 0)))
+    c.ensures("scattering", c.eq(out[0], 2 * c.pi * S_sca / k ** 2))
+    c.ensures("extinction", c.eq(out[2], 2 * c.pi * S_ext / k ** 2))
+    c.ensures("absorption-is-the-difference", c.eq(out[1], out[2] - out[0]))
+    c.ensures("extinction-equals-scattering-plus-absorption", c.eq(out[2], out[0] + out[1]))
+    c.ensures("asymmetry", c.eq(out[3], 4 * c.pi / (k ** 2 * out[0]) * asym))
+    c.ensures("same-coefficients-for-both-sums", c.and_(len(seen) == 2, c.eq(seen[0][1], seen[1][1]), c.eq(seen[0][2], seen[1][2])))
+    c.canary("prefactor-pi-over-k2", c.eq(out[0], c.pi * S_sca / k ** 2))
